@@ -106,6 +106,9 @@ def run_trainer(key):
         share = np.array([0.55, 0.27, 0.18, 0.12, 0.08][:D - 1])
         axis_of = r.choice(D - 1, size=lead + (N,), p=share / share.sum())
         y = np.eye(D)[axis_of] * (1 + 0.1 * r.standard_normal(lead + (N, 1))) + 3e-4 * y
+    if key.get('data') == 'zero_rows':
+        # silent (all-zero) observations that still carry weight: they count in the denominator of the scatter
+        y[..., ::3, :] = 0
     if key.get('data') == 'collinear':
         # exactly collinear frames (positive multiples of one vector per slice): r_bar = 1
         r = A.rng(seed, 'collinear', fam, D, N, lead)
@@ -397,6 +400,12 @@ def run_alternation(key):
         perms = [list(range(K)), list(np.roll(np.arange(K), 1)), list(np.arange(K)[::-1])]
         for f in range(F):
             init[f] = init[f][perms[f % 3]]
+    elif opt == 'saturated':
+        # tight, well separated classes: after two iterations every posterior sits exactly on a clip value
+        data, labels = A.clustered_data(seed, (F,), K, N // K, D, 'alt-sat', model, noise=0.01)
+        lead = (F,)
+        N = data.shape[-2]
+        init = A.partition_affiliation(labels, K, blur=0.2, lead=lead)
     else:
         data, lead = _scene(model, seed, F, K, N, D, ('alt', K))
         init = A.soft_affiliation(seed, lead, K, N, 'alt', model, K)
@@ -617,6 +626,10 @@ def subchecks(tier, seed):
         for opt in ('full', 'diagonal', 'spherical'):
             for pat in (('none',), ('graded',)):
                 yield ('gauss', 2, 70001, (), pat, opt, 'many', seed)
+        for D in (2, 3, 5):
+            for lead in ((), (2,)):
+                for pat in (('none',), ('graded',)):
+                    yield ('watson', D, 12, lead, pat, 500.0, 'zero_rows', seed)
         for fam, opts in (('watson', (500.0, 5.0)), ('vmf', ((1e-10, 500.0), (2.0, 5.0)))):
             for D in (2, 3, 5, 8):
                 for N in (2, 3, 7, 12, 31):
@@ -692,7 +705,7 @@ def subchecks(tier, seed):
             integ = model in M.INTEGRATION
             wcas = ((-1,), (-3,), (-3, -1), (-3, -2, -1)) if integ else \
                 ((-1,), -2, (-3,), (-3, -1), (-2,))
-            optmap = {'cacgmm': ('default', 'trace', 'nonorm', 'nohermit', 'eps', 'trace_floor', 'nonorm_floor'),
+            optmap = {'cacgmm': ('default', 'trace', 'nonorm', 'nohermit', 'eps', 'trace_floor', 'nonorm_floor', 'saturated'),
                       'cwmm': ('default', 'bounds'), 'cbmm': ('default', 'eps'),
                       'gmm': ('full', 'diagonal', 'spherical'), 'vmfmm': ('default', 'bounds'),
                       'gcacgmm': ('default', 'full', 'diagonal', 'streams', 'trace'),
